@@ -193,7 +193,7 @@ pub fn lattice_vectors(len: usize) -> Vec<Vec<f64>> {
 
 /// random valid edge vector with runs of repeated edges and optional infinite outer edges
 pub fn edges_strategy(len: usize) -> impl Strategy<Value = Vec<f64>> {
-    (vec((0.0..1.0f64, 0u8..6), len + 1), any::<bool>(), any::<bool>(), -6.0..6.0f64, -3.0..3.0f64).prop_map(move |(steps, inf_lo, inf_hi, lscale, off)| {
+    (vec((0.0..1.0f64, 0u8..6), len + 1), any::<bool>(), any::<bool>(), -6.0..6.0f64, -3.0..3.0f64, proptest::option::weighted(0.3, any::<proptest::sample::Index>())).prop_map(move |(steps, inf_lo, inf_hi, lscale, off, zero_at)| {
         let scale = 10f64.powf(lscale);
         let mut v = Vec::with_capacity(len + 1);
         let mut cur = off * scale;
@@ -203,6 +203,13 @@ pub fn edges_strategy(len: usize) -> impl Strategy<Value = Vec<f64>> {
                 cur += u * scale;
             }
             v.push(cur);
+        }
+        if let Some(ix) = zero_at {
+            // translate so that one edge is exactly 0.0 (subtraction of a constant is monotone)
+            let z = v[ix.index(v.len())];
+            for e in v.iter_mut() {
+                *e -= z;
+            }
         }
         if inf_lo {
             v[0] = f64::NEG_INFINITY;
